@@ -5,6 +5,7 @@ FLAGS = ['-DNDEBUG']
 ASSUMPTIONS = [
     'exact real arithmetic ("to rounding accuracy" is decided as equality in R)',
     'every U(j,j) the factorisation divides by is non-zero (premise) and the solve-time guard |U(i,i)| >= 1e-12 holds; the guard\'s exit(EXIT_FAILURE) path counts as "rejected"',
+    'separately (n <= 3): if every pivot of the elimination without pivoting (computed by the harness on the dense symbolic matrix) is at least 1e-9 in modulus, the solver returns - a zero on the matrix\'s own diagonal must not be rejected',
     'separately: strict row diagonal dominance with positive diagonal and margin >= 1e-9 makes the exit path infeasible and every pivot non-zero (n <= 3); with a margin below the guard (1e-12) the solver may reject a dominant matrix',
     'std::unordered_map iteration order = libstdc++ node order under a next-prime rehash policy (two different prime offsets are run)',
 ]
@@ -27,8 +28,8 @@ def jobs(tier, seed):
 
     def add(n, pat, order, ctor, nrhs, premise=0, bias=0, diff=False):
         J.append(dict(entry='h_lu', args=[n, pat, order, ctor, nrhs, premise], label=f'lu n={n} pat={pat:#x} order={order} ctor={ctor} rhs={nrhs} prem={premise} bias={bias}',
-                      cls='lu' if premise == 0 else 'lu-dominant', reach=['factorised'], expect='any' if premise == 0 else 'return',
-                      eager=(premise == 1), rehash_bias=bias, diff=diff, div_safety=(premise == 1), feas_timeout=20))
+                      cls={0: 'lu', 1: 'lu-dominant', 2: 'lu-admits-factorisation'}[premise], reach=['factorised'], expect='any' if premise == 0 else 'return',
+                      eager=(premise >= 1), rehash_bias=bias, diff=diff, div_safety=(premise == 1), feas_timeout=20))
     add(1, 0, 0, 0, 1)
     add(1, 0, 0, 1, 2)
     offd2 = [(0, 1), (1, 0)]
@@ -58,6 +59,12 @@ def jobs(tier, seed):
     for n in (1, 2, 3):
         full = pat_bits(n, [(i, j) for i in range(n) for j in range(n) if i != j])
         add(n, full, 1, 0, 1, premise=1)
+    # LU without pivoting exists (all pivots >= 1e-9 in modulus) => the solver returns, whatever the matrix's own diagonal holds
+    for n in (2, 3):
+        full = pat_bits(n, [(i, j) for i in range(n) for j in range(n) if i != j])
+        add(n, full, 0, 0, 1, premise=2)
+        add(n, full, 1, 1, 1, premise=2)
+    add(3, pat_bits(3, [(0, 1), (1, 0), (1, 2), (2, 1)]), 2, 2, 1, premise=2)
     return J
 
 
